@@ -36,6 +36,10 @@ func loadURL(listURL string) (pemBlocks map[string][]byte, err error) {
 			return nil, err
 		}
 		defer resp.Body.Close()
+		// an error page is not a list of files or a certificate
+		if resp.StatusCode != http.StatusOK {
+			return nil, fmt.Errorf("GET %s: %s", url, resp.Status)
+		}
 		return io.ReadAll(resp.Body)
 	}
 
